@@ -259,7 +259,7 @@ Theorem C18_sorted : forall cfg root args,
   Sorted (fun x y : str * str => str_ltb (fst y) (fst x) = false) (complete cfg root args).
 Proof.
   intros cfg root args. unfold complete. cbv zeta.
-  destruct (comp_walk cfg root _ _ _ _) as [[s opt] rest].
+  destruct (comp_walk cfg root _ _ _ _) as [[[s opt] rest] term].
   match goal with |- context [sort_by ?k ?l] =>
     destruct (sort_by_sorted (str * str) k l) as [H1 [H2 _]] end.
   split; [exact H1|exact H2].
